@@ -8,7 +8,9 @@ ALL = ["C%02d" % i for i in range(1, 21)]
 
 TRUSTED = ("Trusted base: TLC 1.8 and the CommunityModules Json/IOUtils overrides; the L0 definitions in "
            "spec/*.tla; the integer / 10^-6 fixed-point encoding of observed outputs (harness/encode.py) "
-           "and the tolerances stated in the Trace_* modules; the bounded domains in DESIGN.md section 5. ")
+           "and the tolerances stated in the Trace_* modules; the bounded domains in DESIGN.md section 5; for the "
+           "scale-regime records (130..1300 nodes, huge counts, near-threshold values: DESIGN 0.2) the cheaper "
+           "operators that an MC invariant or ASSUME proves equal to the L0 definitions on all small instances. ")
 
 CHECKS = {
     "C16": dict(
@@ -37,7 +39,7 @@ CHECKS.update({
               "and edge list after every accepted swap and on the returned values."),
         design="5 C01",
         technique="TLA+ L2 machine model-checked by TLC; spec->code scripted replay and code->spec hook-trace validation by TLC",
-        note=TRUSTED + "randomizer_bin_und is not covered by this check yet (see DESIGN). Weights are small integers."),
+        note=TRUSTED + "randomizer_bin_und has its own L2 machine (RandomizerImpl) and no hooks: judged on returned values. Weights are small integers (optionally signed, scaled by powers of two in the real call)."),
     "C11": dict(
         text=("TLC proves the two connectivity probes (frontier expansion with early exits, transcribed in "
               "spec/Rewire.tla) sound for every connected graph on 5 (6 thorough) nodes / strongly connected "
@@ -69,10 +71,13 @@ CHECKS.update({
               "returned q = Q(returned partition) at every level. Bound to the code both ways: TLC -simulate "
               "behaviours are forced through a scripted RandomState and must return the model's (ci,q); real "
               "runs of all ten routines emit move/level hook events that TLC (spec/Trace_Louvain.tla) judges "
-              "against the exact integer modularity (spec/Modularity.tla) for every gamma/qtype/objective."),
+              "against the exact integer modularity (spec/Modularity.tla) for every gamma/qtype/objective. "
+              "Generated behaviours also mark the states where the move guard is exactly at its boundary "
+              "(gain 0); the real call is repeated with one connection perturbed by about 1e-9 so that the "
+              "code runs just above / below its float thresholds."),
         design="5 C02",
         technique="TLA+ L2 Louvain machine model-checked by TLC; scripted replay + hook-trace validation against exact integer modularity",
-        note=TRUSTED + "Signed routines and community_louvain have no L2 machine of their own (bound by trace clauses only). "
+        note=TRUSTED + "community_louvain (LouvainBImpl) and the signed routines (LouvainSImpl) have their own L2 machines. "
              "modularity_louvain_dir defects are listed in KNOWN_FINDINGS.json (pinned tests forbid the repair)."),
     "C07": dict(
         text=("Same specification, behaviours and traces as C02 with the C07 clause list: TLC proves on the L2 "
